@@ -115,7 +115,10 @@ func (m MapSchema[K, V]) Unserialize(data any) (any, error) {
 	t := m.ReflectedType()
 	result := reflect.MakeMapWithSize(t, v.Len())
 	for _, k := range v.MapKeys() {
-		val := v.MapIndex(k)
+		val, err := mapEntryValue(v, k)
+		if err != nil {
+			return nil, err
+		}
 
 		unserializedKey, err := m.KeysValue.Unserialize(k.Interface())
 		if err != nil {
@@ -219,7 +222,11 @@ func (m MapSchema[K, V]) ValidateCompatibility(typeOrData any) error {
 		if err := m.KeysValue.ValidateCompatibility(k.Interface()); err != nil {
 			return ConstraintErrorAddPathSegment(err, fmt.Sprintf("{%v}", k))
 		}
-		if err := m.ValuesValue.ValidateCompatibility(v.MapIndex(k).Interface()); err != nil {
+		val, err := mapEntryValue(v, k)
+		if err != nil {
+			return err
+		}
+		if err := m.ValuesValue.ValidateCompatibility(val.Interface()); err != nil {
 			return ConstraintErrorAddPathSegment(err, fmt.Sprintf("[%v]", k))
 		}
 	}
@@ -249,7 +256,11 @@ func (m MapSchema[K, V]) Validate(data any) error {
 		if err := m.KeysValue.Validate(k.Interface()); err != nil {
 			return ConstraintErrorAddPathSegment(err, fmt.Sprintf("{%v}", k))
 		}
-		if err := m.ValuesValue.Validate(v.MapIndex(k).Interface()); err != nil {
+		val, err := mapEntryValue(v, k)
+		if err != nil {
+			return err
+		}
+		if err := m.ValuesValue.Validate(val.Interface()); err != nil {
 			return ConstraintErrorAddPathSegment(err, fmt.Sprintf("[%v]", k))
 		}
 	}
@@ -268,7 +279,11 @@ func (m MapSchema[K, V]) Serialize(data any) (any, error) {
 		if err != nil {
 			return nil, ConstraintErrorAddPathSegment(err, fmt.Sprintf("{%v}", k))
 		}
-		serializedValue, err := m.ValuesValue.Serialize(v.MapIndex(k).Interface())
+		val, err := mapEntryValue(v, k)
+		if err != nil {
+			return nil, err
+		}
+		serializedValue, err := m.ValuesValue.Serialize(val.Interface())
 		if err != nil {
 			return nil, ConstraintErrorAddPathSegment(err, fmt.Sprintf("[%v]", k))
 		}
@@ -323,4 +338,17 @@ func (m TypedMapSchema[KeyType, ValueType]) ValidateType(data map[KeyType]ValueT
 
 func (m TypedMapSchema[KeyType, ValueType]) SerializeType(data map[KeyType]ValueType) (any, error) {
 	return m.Serialize(data)
+}
+
+// mapEntryValue returns the value stored under a key obtained from MapKeys. A NaN key is not equal to itself, so
+// MapIndex finds nothing for it and returns the zero Value, on which Interface() panics. Such a map cannot be
+// represented by any schema and is rejected.
+func mapEntryValue(mapValue reflect.Value, key reflect.Value) (reflect.Value, error) {
+	value := mapValue.MapIndex(key)
+	if !value.IsValid() {
+		return value, &ConstraintError{
+			Message: fmt.Sprintf("Unsupported map key %v: the key cannot be looked up", key),
+		}
+	}
+	return value, nil
 }
